@@ -436,3 +436,42 @@ class l_constructor:
         real = S.type_call_vector(initial, dtype, name, as_row)
         model = Vector(initial, dtype=dtype, name=name, as_row=as_row)
         return S.same_view(real, model)
+
+
+# ------------------------------------------------------------------ C02 / C03 concatenation
+@loop_invariant('serif.vector.Vector._concat_dtype', 0, havoc={'dtype': 'dtype'})
+def concat_dtype_inv(k, self, values, dtype):
+    st = S.concat_dtype_state(self._dtype, values, k)
+    return dtype.kind is st[0] and dtype.nullable == st[1] and dtype.kind is not type(None)
+
+
+@contract('serif.vector.Vector._concat_dtype', props=['C03', 'C02'])
+class concat_dtype:
+    params = {'self': 'vector', 'values': 'alt:seq_any|list_any'}
+
+    def requires(self):
+        return self._dtype is None or S.valid_dtype(self._dtype)
+
+    def returns(self, values):
+        return S.concat_dtype_spec(self._dtype, values)
+
+
+def _typesafe_clash(self, other):
+    return (isinstance(other, Vector) and self._dtype is not None and other._dtype is not None
+            and not self._dtype.nullable and not other._dtype.nullable
+            and self._dtype.kind is not other._dtype.kind)
+
+
+@contract('serif.vector.Vector.__lshift__', props=['C02', 'C03', 'C15'])
+class lshift:
+    """C02: v << x appends: a vector's / sequence's elements, or the one scalar cell (strings,
+    empty strings and None are cells); existing elements are untouched."""
+    params = {'self': 'vector', 'other': 'alt:vector|list_any|scalar|str'}
+    from serif.errors import SerifTypeError as _E
+    raises = [(_E, _typesafe_clash, True)]
+
+    def requires(self, other):
+        return (self._dtype is None or S.valid_dtype(self._dtype)) and _operand_ok(other)
+
+    def returns(self, other):
+        return S.lshift_spec(self, other)
